@@ -334,6 +334,13 @@ func (p *SackPeer) synAckBytes(local netip.Addr, lp uint16, isn uint32) []byte {
 	return wirefmt.IPv4{TTL: 64, Proto: wirefmt.ProtoTCP, Src: p.Addr.Addr(), Dst: local, Flags: 2}.Marshal(seg)
 }
 
+// LocalPort returns the tool's local port of the connection accepted for handle idx (0 when none was accepted).
+func (p *SackPeer) LocalPort(idx int) uint16 {
+	p.mu.Lock()
+	defer p.mu.Unlock()
+	return p.LocalPorts[idx]
+}
+
 // OnReadStart must be chained into Wire.OnReadStart: at the first read after the SYN-ACK filter was
 // installed the dial has completed, so the connection is in the accept queue; its remote address is
 // the tool's local address and port.
